@@ -20,10 +20,10 @@ static Case gen_case() {
     Case c;
     uint64_t size = one_of({1, 2, 3, 4, 5, 7, 8, 9, 15, 16, 17, 31, 32, 33, 48}) ;
     if (chance(30)) size = pick(1, 48);
-    uint64_t mode = weighted({4, 6}); // 0 sequential, 1 two threads
+    uint64_t mode = weighted({3, 7}); // 0 sequential, 1 two threads
     c.cfg = {mode, size};
     auto small = [size]() -> uint64_t {
-        switch (weighted({3, 3, 2, 1, 1})) {
+        switch (weighted({2, 5, 3, 1, 1})) {
         case 0: return pick(1, size + 1);
         case 1: return pick(1, size / 4 + 1);
         case 2: return pick(1, size / 2 + 1);
@@ -31,7 +31,7 @@ static Case gen_case() {
         default: return size + 1;
         }
     };
-    c.ops = op_list(40, [=] {
+    c.ops = op_list(56, [=] {
         switch (weighted({4, 3, 4})) {
         case 0: return mkop(ACQ, {small()});
         case 1: {
